@@ -17,7 +17,12 @@ CONSTANTS
   StableFrom,   \* virtual ms from which all delays are within the bound (GST + backlog)
   EndT,         \* virtual ms at which the run ended
   Margin,       \* ms a window needs to complete (timeouts + block time)
-  RequireFast   \* TRUE: demand fast-finalization certificates when >= 80% of the stake is responsive
+  RequireFast,  \* TRUE: demand fast-finalization certificates when >= 80% of the stake is responsive
+  Starved       \* slots of which dissemination delivered fewer than 32 shreds of some slice to some live node
+                \* (Rotor samples one relay per shred by stake; relays that are crashed or Byzantine forward
+                \* nothing, so with f faulty stake a slice is under-delivered with probability
+                \* P[Bin(64, f) > 32]: small, not zero - the block then needs repair and its window may time out;
+                \* the protocol's progress guarantee is conditional on Rotor's delivery)
 
 VARIABLES now, tfirst, ffheld
 
@@ -53,24 +58,29 @@ HighestAt(n) == IF \E x \in fin : x.node = n
 
 FastPathExpected == RequireFast /\ Strong(SumStake(Live))
 
+WellDelivered(w) == WindowSlotsOf(w) \cap Starved = {}
 Goal ==
   /\ \A w \in JudgedWindows :
-       IF Leader(w * W) \in Live
+       IF Leader(w * W) \in Live /\ WellDelivered(w)
        THEN \A s \in WindowSlotsOf(w) :
               /\ \A n \in Live : FinalizedAt(n, s)
               /\ ~SkipCert(s)
               /\ (FastPathExpected => \A n \in Live : <<n, s>> \in ffheld)
+       ELSE IF Leader(w * W) \in Live
+       \* an under-delivered block may time out: its window must still be DECIDED (finalized or skipped), not block
+       THEN \A s \in WindowSlotsOf(w) : (\A n \in Live : FinalizedAt(n, s)) \/ SkipCert(s)
        ELSE (Leader(w * W) \in Crashed \cup SilentByz) =>
               \A s \in WindowSlotsOf(w) : SkipCert(s)
   \* every live node's highest finalized slot keeps up with the judged windows
   /\ \A n \in Live : \A w \in JudgedWindows :
-       Leader(w * W) \in Live => HighestAt(n) >= w * W
+       (Leader(w * W) \in Live /\ WellDelivered(w)) => HighestAt(n) >= w * W
 
 FaultyJudged == {w \in JudgedWindows : Leader(w * W) \notin Live}
 GoalAtEnd ==
   (l = Len(Rec) + 1) =>
      /\ PrintT(<<"JUDGED", ToJson([windows |-> JudgedWindows, faulty |-> FaultyJudged,
-                                   fast |-> FastPathExpected])>>)
+                                   fast |-> FastPathExpected,
+                                   underdelivered |-> {w \in JudgedWindows : ~WellDelivered(w)}])>>)
      /\ Goal
 \* vacuity guard: some window must actually be judged (checked by the driver through a witness run)
 W_NoJudgedWindow == (l = Len(Rec) + 1) => JudgedWindows = {}
